@@ -260,6 +260,9 @@ fn enabled(base: &JobList) -> Vec<Op> {
 }
 
 pub fn replay(case: &serde_json::Value) -> i32 {
+    if case["part"] == "b" {
+        return super::c12b::replay(case);
+    }
     let hist: Vec<Op> = case["history"]
         .as_array()
         .unwrap()
@@ -364,10 +367,14 @@ pub fn run(tier: Tier) -> i32 {
             }
         }
     }
+    let b = super::c12b::run(&ctx, tier);
     let cov = json!({
-        "states": seen.len(),
-        "transitions": transitions,
-        "traces_validated_against_impl": transitions,
+        "states": seen.len() as u64 + b.states,
+        "transitions": transitions + b.transitions,
+        "traces_validated_against_impl": transitions + b.transitions,
+        "part_a_joblist_states": seen.len(),
+        "part_a_joblist_transitions": transitions,
+        "part_b_shell_job_control": b.json,
         "samples": samples.take(),
         "depth_bound": maxdepth,
         "depth_reached": depth_reached,
@@ -379,6 +386,9 @@ pub fn run(tier: Tier) -> i32 {
     });
     ctx.finish(
         cov,
-        &["alphabet: <=4 jobs, pids 10..13, re-insert only for pids of finished jobs (as in the property statement)"],
+        &[
+            "part (a) alphabet: <=4 jobs, pids 10..13, re-insert only for pids of finished jobs (as in the property statement)",
+            "part (b): <=3 jobs, 6 job bodies, two deterministic scheduling policies (schedule nondeterminism is C13's subject); reference model of the documented job-control behaviour and the `jl` probe are trusted",
+        ],
     )
 }
